@@ -6,13 +6,14 @@ set -u
 V=$(cd "$(dirname "$0")/.." && pwd)
 N=$1; S=$V/seeded/$N; shift
 W=$(mktemp -d /tmp/seedwt_XXXX)
-cd /repo && git worktree add -q --detach "$W/wt" HEAD || exit 2
-trap 'cd /repo; git worktree remove --force "$W/wt" 2>/dev/null; rm -rf "$W"' EXIT
-cd "$W/wt"
+WT="$W/wt_$(basename $W)"       # unique basename: git names the worktree after it
+cd /repo && git worktree add -q --detach "$WT" HEAD || exit 2
+trap 'cd /repo; git worktree remove --force "$WT" 2>/dev/null; rm -rf "$W"' EXIT
+cd "$WT"
 if ! git apply "$S/patch.diff" 2>/dev/null; then echo "PATCH DOES NOT APPLY: $N"; exit 3; fi
 cd $V
 for P in "$@"; do
-  out=$(VERIF_REPO="$W/wt" VERIF_EVID="$W/evid" ./check "$P" --tier ${TIER:-quick} 2>&1); rc=$?
+  out=$(VERIF_REPO="$WT" VERIF_EVID="$W/evid" ./check "$P" --tier ${TIER:-quick} 2>&1); rc=$?
   nv=$(echo "$out" | grep -c '^VIOLATION')
   echo "seed=$N check=$P rc=$rc violations=$nv :: $(echo "$out" | grep -m1 -A1 '^VIOLATION' | tail -1 | cut -c1-230)"
   [ $rc -eq 2 ] && echo "$out" | tail -5
